@@ -195,9 +195,7 @@ Section StreamOpen.
   Lemma i_params_loop n : forall acc, ispec' (params_loop n acc).
   Proof.
     induction n as [|n IH]; intros acc s r s' H Hi; cbn [params_loop] in H; [discriminate|].
-    cbv zeta in H. cbrk.
-    - eapply IH; [exact H|]. auto with idb.
-    - assumption.
+    cbv zeta in H. igo.
   Qed.
   Hint Resolve i_params_loop : idb.
 
@@ -696,11 +694,8 @@ Section Two.
     Proof.
       induction n1 as [|n1 IH]; intros n2 acc; lstart; [discriminate H1|].
       destruct n2; cbn [params_loop] in H1, H2; [discriminate H2|]. cbv zeta in H1, H2.
-      set (t1 := ps_next (ps_next s1)) in *. set (t2 := ps_next (ps_next s2)) in *.
-      assert (Hsd : SD t1 t2) by (subst t1 t2; eauto with sddb).
-      clearbody t1 t2. sync_obs Hs H2. destruct (peek_is s1 T_COMMA).
-      - destruct Hsd as [Hs'|Hd]; [|div_finish Hd H1 H2].
-        sync_obs Hs' H2. eapply IH; [left; exact Hs' | exact H1 | exact H2].
+      sync_obs Hs H2. destruct (peek_is s1 T_COMMA).
+      - lsolve H1 H2.
       - lsolve H1 H2.
     Qed.
     Hint Resolve l_params_loop : ldb.
